@@ -483,7 +483,9 @@ def queries(m, sp, sort_flag, explicit_faces):
         if 'ex' not in state:
             state['ex'] = extract_boundary_of_volume(m)
         return state['ex']
-    all_positive = all(s > 0 for s in sp.signs)
+    # 'positively oriented' in the library's own sense (volume.py: det(pA-pD, pB-pD, pC-pD) > 0 for a cell (A,B,C,D)),
+    # which is the opposite sign of det(v1-v0, v2-v0, v3-v0)
+    all_positive = all(s < 0 for s in sp.signs)
 
     def ex_surface(sig):
         def thunk():
@@ -493,7 +495,7 @@ def queries(m, sp, sort_flag, explicit_faces):
             except KeyError as e_:
                 return (sig, 'surface face uses vertex %s unknown to the surface->volume map' % e_) if sig == 'faces' else None
             pb = surface_problems(sp, fv, all_positive and not explicit_faces)
-            return (sig, 'extract_boundary_of_volume: ' + pb[sig] + (' -- all cells satisfy det(v1-v0,v2-v0,v3-v0) > 0' if sig == 'orientation' else '')) if sig in pb else None
+            return (sig, 'extract_boundary_of_volume: ' + pb[sig] + (' -- all cells satisfy det(pA-pD,pB-pD,pC-pD) > 0' if sig == 'orientation' else '')) if sig in pb else None
         return thunk
     for sig in ('faces', 'closed') + (('orientation',) if all_positive and not explicit_faces else ()):
         q('extract_boundary_of_volume.' + sig, 'extract_boundary_of_volume(mesh)', ex_surface(sig))
